@@ -156,6 +156,7 @@ func C01Configs(thorough bool) []*world.Config {
 	add(depth(world.IntCfg(2, []int{1, 2, 3, 4, 8}, []interface{}{world.SVal{Asdf: "a", Q: true}, world.SVal{Asdf: "b"}}, world.SVal{}, M, "big"), 6))
 	add(world.Int64Cfg(2, []int64{-8, -3, 0, 2, 4, 1 << 40}, B, "none"))
 	add(world.Uint64Cfg(2, []uint64{0, 1, 2, 4, 1<<53 + 1, 1 << 63}, B, "none"))
+	add(world.Wide(world.UintCfg(2, u(1, 5), 1, B, "none")))
 	add(world.Int32Cfg(2, []int32{-2, 9, 10, 100, 4, 16}, B, "none"))
 	add(world.Uint8Cfg(2, []uint8{2, 10, 100, 9, 16, 200}, M, "none"))
 	add(world.StringCfg(2, []uint8{0, 1, 0, 2, 0}, B, "none"))
